@@ -389,7 +389,7 @@ func main() {
 	xplor.Main(xplor.Check{
 		ID:    "C04",
 		Level: "exploration",
-		Rule:  "every block of <= 2 transactions over the 41-letter alphabet (which contains txs signed by a foreign key, bound to another chain id, with nonce-1 (replay) and nonce+1 (gap), sent under a name signed by its owner / by a non-owner) x pre-state {genesis, warm} x 5 (thorough 40) network configurations: producer outcome per fault, executed nonces of the block are exactly state+1.., adversarial variants (rejected txs re-inserted, replay of an included tx, same tx twice, foreign signature) are refused by ChainService.addBlock (signature verification on, no mempool shortcut) and leave both stores / best / state root unchanged, the honest block is accepted; plus, on every state of the C05/C07 block-arrival BFS over all trees with <= 4 (5) blocks whose branches share txs: executed nonces along the main chain are 1,2,3.. per account, no tx id twice, state nonce = number of executed txs. distinct_nontrivial = distinct (net, pre-state, word, outcome vector) + distinct fork states",
+		Rule:  "every block of <= 2 transactions over the 42-letter alphabet (which contains txs signed by a foreign key, bound to another chain id, with nonce-1 (replay) and nonce+1 (gap), sent under a name signed by its owner / by a non-owner) x pre-state {genesis, warm} x 5 (thorough 40) network configurations: producer outcome per fault, executed nonces of the block are exactly state+1.., adversarial variants (rejected txs re-inserted, replay of an included tx, same tx twice, foreign signature) are refused by ChainService.addBlock (signature verification on, no mempool shortcut) and leave both stores / best / state root unchanged, the honest block is accepted; plus, on every state of the C05/C07 block-arrival BFS over all trees with <= 4 (5) blocks whose branches share txs: executed nonces along the main chain are 1,2,3.. per account, no tx id twice, state nonce = number of executed txs. distinct_nontrivial = distinct (net, pre-state, word, outcome vector) + distinct fork states",
 		Assumptions: []string{
 			"pool admission (mempool verifyTx/put) is judged in C13/C14; here the pool is absent and every signature is verified by the block validator itself",
 		},
